@@ -98,6 +98,18 @@ func c06Run(c *core.Ctx) *core.Result {
 	switch viewKind {
 	case "disk", "subdir", "filtered":
 		t := tree.Gen(R, o)
+		// an entry that carries the name of the receiver's metadata-only
+		// listing is, for the sender, an entry like any other
+		if R.P(1, 6) && t.Get(".fsutil-metadata") == nil {
+			t.Put(tree.Entry{Path: ".fsutil-metadata", Type: core.Pick(R, []byte{tree.File, tree.File, tree.Symlink}), Perm: 0644, Mtime: 1e18, Data: []byte("a listing left by an earlier transfer"), Target: "a"})
+			if e := t.Get(".fsutil-metadata"); e.Type == tree.Symlink {
+				e.Data, e.Perm = nil, 0777
+			} else {
+				e.Target = ""
+			}
+			t.Sort()
+			r.Count("views_with_an_entry_named_like_the_listing", 1)
+		}
 		// unix sockets: the walk announces them as regular entries (the
 		// socket bit is not carried), so they are requestable; opening one
 		// fails, and the answer is the bare terminator
